@@ -103,9 +103,15 @@ pub(crate) fn add_key_output_from_action_to_key_pos(
             add_key_output_from_action_to_key_pos(osc_slot, left, outputs, overrides);
             add_key_output_from_action_to_key_pos(osc_slot, right, outputs, overrides);
         }
-        Action::Chords(ChordsGroup { chords, .. }) => {
-            for (_, ac) in chords.iter() {
-                add_key_output_from_action_to_key_pos(osc_slot, ac, outputs, overrides);
+        Action::Chords(group) => {
+            // Only the chords this key takes part in can put an output down for it. Listing the
+            // actions of the other keys' chords as well made the repeat of this key come out as
+            // a key that another key of the group holds.
+            let my_keys = group.get_keys((0, u16::from(osc_slot)));
+            for (chord_keys, ac) in group.chords.iter() {
+                if my_keys.map(|k| k & *chord_keys != 0).unwrap_or(true) {
+                    add_key_output_from_action_to_key_pos(osc_slot, ac, outputs, overrides);
+                }
             }
         }
         Action::Switch(Switch { cases }) => {
